@@ -778,7 +778,43 @@ func (x *Exec) frameObligations(fn *ssa.Function, c *Contract, params []Val, r r
 			Name:      fmt.Sprintf("%s#frame.havoc@ret%d", shortFn(fn), r.block)})
 		return
 	}
+	// ghost state: a ghost the function (through its callees' contracts) changed must be named
+	ghostAllowed := func(name string) bool {
+		g := strings.TrimPrefix(name, "G:")
+		for _, m := range c.Modifies {
+			switch e := m.(type) {
+			case *EIdent:
+				if e.Name == g {
+					return true
+				}
+			case *EIndex:
+				if id, ok := e.X.(*EIdent); ok && id.Name == g {
+					return true
+				}
+			case *ESel:
+				if strings.HasSuffix(g, "."+e.Name) {
+					return true
+				}
+			}
+		}
+		return false
+	}
 	for _, name := range sortedKeys(r.st.heap) {
+		if strings.HasPrefix(name, "G:") && name != allocName {
+			sort := x.arraySort[name]
+			if sort == "" {
+				continue
+			}
+			now := r.st.Get(name, sort)
+			was := entry.Get(name, sort)
+			if now == was || ghostAllowed(name) {
+				continue
+			}
+			x.addObl(&Obligation{Kind: "frame", Label: "modifies", Pos: x.pos(r.pos), Reach: r.reach, Goal: Eq(now, was),
+				ClauseSrc: "modifies " + strings.Join(c.ModSrc, ", ") + " (ghost " + strings.TrimPrefix(name, "G:") + " is not listed)",
+				Name:      fmt.Sprintf("%s#frame.%s@ret%d", shortFn(fn), sanitize(name), r.block)})
+			continue
+		}
 		if strings.HasPrefix(name, "G:") || strings.HasPrefix(name, "V:") || strings.HasPrefix(name, "P:") {
 			continue
 		}
